@@ -60,9 +60,14 @@ func (t *xModSnapshot) Get(bucket string, key []byte) (*kledger.VersionedData, e
 		}
 
 		// 查询交易所在区块高度
-		blkHeight, err := t.getBlockHeight(txInfo.Blockid)
+		blkHeight, inTrunk, err := t.getBlockHeight(txInfo.Blockid)
 		if err != nil {
 			return nil, fmt.Errorf("query block height fail.err:%v", err)
+		}
+		if !inTrunk {
+			// the ledger also stores side-branch blocks: a copy held by a block that is not on the
+			// main chain confirms nothing, whatever its height
+			continue
 		}
 		// 当前块高度<=blkHeight，遍历结束
 		if blkHeight <= t.blkHeight {
@@ -89,14 +94,14 @@ func (t *xModSnapshot) isInit() bool {
 	return true
 }
 
-func (t *xModSnapshot) getBlockHeight(blockid []byte) (int64, error) {
+func (t *xModSnapshot) getBlockHeight(blockid []byte) (int64, bool, error) {
 	blkInfo, err := t.xmod.QueryBlock(blockid)
 	if err != nil {
-		return 0, fmt.Errorf("query block info fail. block_id:%s err:%v",
+		return 0, false, fmt.Errorf("query block info fail. block_id:%s err:%v",
 			hex.EncodeToString(blockid), err)
 	}
 
-	return blkInfo.Height, nil
+	return blkInfo.Height, blkInfo.InTrunk, nil
 }
 
 func (t *xModSnapshot) genVerDataByTx(tx *pb.Transaction, offset int32) *kledger.VersionedData {
